@@ -147,7 +147,7 @@ LEVEL_TEXT.update({
 for k in ['C10','C12']: NOT_APPLICABLE.pop(k, None)
 
 PROPS.update({
-    'C18': dict(gens=['vehicle', 'track', 'consts', 'packets', 'builder'], coq_targets=['Props/C18.vo'], coqchk_modules=['Props.C18'], group='wire', harness='c18', axioms_allowed=[],
+    'C18': dict(gens=['vehicle', 'track', 'consts', 'packets', 'builder'], coq_targets=['Props/C18.vo'], coqchk_modules=['Props.C18'], group='wire', extra_groups=['net'], harness='c18', axioms_allowed=[],
         proved=['for ALL setter sequences (induction over the call list): every ISI field is the last value set or its documented default; UDP port only for UDP and 0 without a local address; every flag bit is decided by the last call touching it; a flag setter changes exactly its bit; mode / protocol = last set or default',
                 'the ten flag setters regenerated from builder.rs each own one distinct bit = the IsiFlags constant of the same name; isi() has the pinned source shape; version = VERSION',
                 'the ISI as a model packet: in the wire domain its frame in the configured mode decodes back to exactly that ISI and is one well-formed frame (C01/C03 instantiated)'],
